@@ -758,6 +758,10 @@ class C2Profile(ConfigBlock):
                 elif item == ";":
                     logger.debug(repr(line))
                     line.pop()  # pop ;
+                    if line and line[0] == "#":
+                        # commented out statement (`# dns_resolver "..";`), not a setting: it parses back as a comment
+                        line = []
+                        continue
                     key = ".".join(stack)
                     if key in list_props:
                         value = tuple(string_token_to_bytes(x) for x in line)
